@@ -6,6 +6,7 @@ import (
 	"regexp"
 	"strconv"
 	"strings"
+	gotime "time"
 )
 
 type Week struct {
@@ -39,7 +40,13 @@ func NewWeekFromString(yyyyWww string) (Week, error) {
 			ref = ref.PlusDays(-1)
 		}
 		_, w := ref.WeekNumber()
-		ref = ref.PlusDays((week - w) * 7)
+		offset := (week - w) * 7
+		// The entire week (Monday through Sunday) must be representable.
+		sunday := gotime.Date(ref.Year(), gotime.Month(ref.Month()), ref.Day()+offset+6, 0, 0, 0, 0, gotime.UTC)
+		if _, sErr := klog.NewDate(sunday.Year(), int(sunday.Month()), sunday.Day()); sErr != nil {
+			return nil, errors.New("INVALID_WEEK_PERIOD")
+		}
+		ref = ref.PlusDays(offset)
 		return ref, nil
 	}()
 	if err != nil {
